@@ -103,9 +103,9 @@ Section D.
   Qed.
 
   (* what the code returns, against the true derivative *)
-  Lemma arc_deriv_vs_true t n : (1 <= n)%Z ->
-    exists d, arc_deriv NumR NumTR Q t n = Some d /\
-      let f := if Z.eqb (Z.modulo n 4) 0 then k ^ Z.to_nat n else 1 in
+  Lemma arc_deriv_vs_true dfx t n : (1 <= n)%Z ->
+    exists d, arc_deriv NumR NumTR dfx Q t n = Some d /\
+      let f := if Z.eqb (Z.modulo n 4) 0 && negb dfx then k ^ Z.to_nat n else 1 in
       true_dx (Z.to_nat n) t = f * fst d /\ true_dy (Z.to_nat n) t = f * snd d.
   Proof.
     intros Hn.
@@ -121,9 +121,9 @@ Section D.
     change ((a_theta Q + t * a_delta Q) * PI / 180) with (A t). fold ca sa.
     destruct (Z.eqb_spec (n mod 4) 0) as [E0|E0].
     { assert (Z.gtb n 0 = true) as -> by lia. cbn [andb].
-      eexists; split; [reflexivity|]. cbn [fst snd].
       replace (Z.to_nat n) with (4 * q + 0)%nat by (unfold q; lia).
-      rewrite !it_mod. cbn [it fst snd]. rewrite Nat.add_0_r. split; ring. }
+      destruct dfx; cbn [negb]; (eexists; split; [reflexivity|]); cbn [fst snd];
+      rewrite !it_mod; cbn [it fst snd]; rewrite Nat.add_0_r; split; ring. }
     cbn [andb].
     destruct (Z.eqb_spec (n mod 4) 1) as [E1|E1].
     { eexists; split; [reflexivity|]. cbn [fst snd].
@@ -139,33 +139,46 @@ Section D.
       rewrite !it_mod. cbn [it]; unfold step; cbn [fst snd]. rewrite pow_add. split; ring. }
   Qed.
 
-  (* C04_deriv for n mod 4 <> 0 *)
-  Lemma arc_deriv_correct t n : (1 <= n)%Z -> (n mod 4 <> 0)%Z ->
-    exists d, arc_deriv NumR NumTR Q t n = Some d /\
+  (* C04_deriv for n mod 4 <> 0 (either variant) *)
+  Lemma arc_deriv_correct dfx t n : (1 <= n)%Z -> (n mod 4 <> 0)%Z ->
+    exists d, arc_deriv NumR NumTR dfx Q t n = Some d /\
       is_derive_n (fun u => fst (arc_point NumR NumTR Q u)) (Z.to_nat n) t (fst d) /\
       is_derive_n (fun u => snd (arc_point NumR NumTR Q u)) (Z.to_nat n) t (snd d).
   Proof.
-    intros Hn Hm. destruct (arc_deriv_vs_true t n Hn) as [d [E [X Y]]].
+    intros Hn Hm. destruct (arc_deriv_vs_true dfx t n Hn) as [d [E [X Y]]].
     exists d. split; [exact E|].
-    destruct (Z.eqb_spec (n mod 4) 0); [contradiction|]. cbn zeta in X, Y.
+    destruct (Z.eqb_spec (n mod 4) 0); [contradiction|]. cbn [andb] in X, Y. cbn zeta in X, Y.
+    rewrite Rmult_1_l in X, Y. rewrite <- X, <- Y.
+    apply point_is_derive_n. lia.
+  Qed.
+
+  (* C04_deriv, FULL, for the repaired variant: every n >= 1 *)
+  Lemma arc_deriv_full t n : (1 <= n)%Z ->
+    exists d, arc_deriv NumR NumTR true Q t n = Some d /\
+      is_derive_n (fun u => fst (arc_point NumR NumTR Q u)) (Z.to_nat n) t (fst d) /\
+      is_derive_n (fun u => snd (arc_point NumR NumTR Q u)) (Z.to_nat n) t (snd d).
+  Proof.
+    intros Hn. destruct (arc_deriv_vs_true true t n Hn) as [d [E [X Y]]].
+    exists d. split; [exact E|].
+    rewrite Bool.andb_false_r in X, Y. cbn zeta in X, Y.
     rewrite Rmult_1_l in X, Y. rewrite <- X, <- Y.
     apply point_is_derive_n. lia.
   Qed.
 
   (* ... and for n mod 4 = 0 the returned value lacks the factor k^n *)
   Lemma arc_deriv_mod4_0 t n : (1 <= n)%Z -> (n mod 4 = 0)%Z ->
-    exists d, arc_deriv NumR NumTR Q t n = Some d /\
+    exists d, arc_deriv NumR NumTR false Q t n = Some d /\
       is_derive_n (fun u => fst (arc_point NumR NumTR Q u)) (Z.to_nat n) t (k ^ Z.to_nat n * fst d) /\
       is_derive_n (fun u => snd (arc_point NumR NumTR Q u)) (Z.to_nat n) t (k ^ Z.to_nat n * snd d).
   Proof.
-    intros Hn Hm. destruct (arc_deriv_vs_true t n Hn) as [d [E [X Y]]].
+    intros Hn Hm. destruct (arc_deriv_vs_true false t n Hn) as [d [E [X Y]]].
     exists d. split; [exact E|].
-    destruct (Z.eqb_spec (n mod 4) 0); [|contradiction]. cbn zeta in X, Y.
+    destruct (Z.eqb_spec (n mod 4) 0); [|contradiction]. cbn [andb negb] in X, Y. cbn zeta in X, Y.
     rewrite <- X, <- Y. apply point_is_derive_n. lia.
   Qed.
 
   (* n <= 0: the code raises only when n mod 4 = 0 *)
-  Lemma arc_deriv_raises t n : (n <= 0)%Z -> (n mod 4 = 0)%Z -> arc_deriv NumR NumTR Q t n = None.
+  Lemma arc_deriv_raises dfx t n : (n <= 0)%Z -> (n mod 4 = 0)%Z -> arc_deriv NumR NumTR dfx Q t n = None.
   Proof.
     intros Hn Hm. unfold arc_deriv. rewrite Hm. cbn [Z.eqb].
     assert (Z.gtb n 0 = false) as -> by lia. reflexivity.
@@ -174,8 +187,8 @@ End D.
 
 (* ------------------------------------------------------------------ *)
 (* consistency of the stored rot_matrix holds for every constructed arc *)
-Lemma arc_init_rot start radius rotation large sweep end_ :
-  let P := arc_init NumR NumTR start radius rotation large sweep end_ in
+Lemma arc_init_rot fx start radius rotation large sweep end_ :
+  let P := arc_init_v NumR NumTR fx start radius rotation large sweep end_ in
   a_rot P = arc_rotm_of NumTR (a_rotation P).
 Proof. reflexivity. Qed.
 
@@ -184,7 +197,7 @@ Proof. reflexivity. Qed.
 Definition Wstart : Cplx R := (1, 0).
 Definition Wend : Cplx R := (-1, 0).
 Definition Wrad : Cplx R := (1, 1).
-Definition W : ArcP R := arc_init NumR NumTR Wstart Wrad 0 false true Wend.
+Definition W : ArcP R := arc_init_v NumR NumTR false Wstart Wrad 0 false true Wend.
 
 Lemma W_adm : Wstart <> Wend /\ fst Wrad <> 0 /\ snd Wrad <> 0.
 Proof. unfold Wstart, Wend, Wrad. cbn [fst snd]. repeat split; try lra. intros H. inversion H. lra. Qed.
@@ -200,18 +213,18 @@ Qed.
 Lemma W_radius : a_radius W = (1, 1).
 Proof.
   destruct W_adm as [A [B C]]. unfold W.
-  rewrite (arc_unscaled Wstart Wrad Wend 0 false true) by (rewrite W_rc; lra).
+  rewrite (arc_unscaled Wstart Wrad Wend 0 false true false) by (rewrite W_rc; lra).
   unfold Wrad. cbn [fst snd]. now rewrite Rabs_R1.
 Qed.
 
 Lemma W_delta : a_delta W = 180.
 Proof.
   destruct W_adm as [A [B C]].
-  destruct (arc_delta_cases Wstart Wrad Wend 0 false true A B C) as [[_ H]|[H _]].
+  destruct (arc_delta_cases Wstart Wrad Wend 0 false true false A B C) as [[_ H]|[H _]].
   - exact H.
-  - exfalso. apply (radical_pos_iff Wstart Wrad Wend 0 A B C) in H.
+  - exfalso. apply (radical_pos_iff Wstart Wrad Wend 0 false A B C) in H.
     rewrite (radicand_scaled Wstart Wrad Wend 0 A B C) in H by (rewrite W_rc; lra).
-    pose proof atol8_R_pos. lra.
+    pose proof (snap_thr_of_ge0 false). lra.
 Qed.
 
 Lemma PI4_gt_1 : 1 < PI ^ 4.
@@ -222,11 +235,11 @@ Proof. pose proof PI2_3_2 as H. unfold PI2 in H. assert (3 < PI) by lra.
 (* C04_deriv is refuted for n = 4: on the half circle W the value returned by
    derivative(t, 4) is not the 4th derivative of point at t0 = -theta/180 *)
 Lemma arc_deriv4_refuted :
-  exists t d, arc_deriv NumR NumTR W t 4 = Some d /\
+  exists t d, arc_deriv NumR NumTR false W t 4 = Some d /\
     ~ is_derive_n (fun u => fst (arc_point NumR NumTR W u)) 4 t (fst d).
 Proof.
   set (t0 := - a_theta W / 180).
-  destruct (arc_deriv_mod4_0 W (arc_init_rot _ _ _ _ _ _) t0 4 ltac:(lia) ltac:(reflexivity))
+  destruct (arc_deriv_mod4_0 W (arc_init_rot _ _ _ _ _ _ _) t0 4 ltac:(lia) ltac:(reflexivity))
     as [d [E [X _]]].
   exists t0, d. split; [exact E|]. intros H.
   change (Z.to_nat 4) with 4%nat in X.
